@@ -6,11 +6,10 @@
 package ggql
 
 //@ -- ------------------------------------------------------------------ helpers
+//@ spec isnilv(v interface{}) bool = v == nil || (ptrlike(v) && ptrval(v) == 0)
 //@ func IsNil
 //@   abstract reads the interface header through unsafe; assumed: true exactly for nil interfaces and nil pointer-shaped values
-//@   ensures v == nil ==> res
-//@   ensures !ptrlike(v) && v != nil ==> !res
-//@   ensures ptrlike(v) ==> (res <==> ptrval(v) == 0)
+//@   ensures res <==> isnilv(v)
 //@   assigns nothing
 
 //@ func newCoerceErr
@@ -35,6 +34,8 @@ package ggql
 //@ spec skippedUpTo(dus []*DirectiveUse, vars map[string]interface{}, k int) bool reads SH_Int, H_DirectiveUse.Directive, H_DirectiveUse.Args, MH_Str_Int, MD_Str_Int, H_ArgValue.Value, MH_Str_Iface, MD_Str_Iface
 //@ axiom skippedUnfold(dus []*DirectiveUse, vars map[string]interface{}, k int): !skippedUpTo(dus, vars, 0) && (k >= 0 ==> (skippedUpTo(dus, vars, k+1) <==> (skippedUpTo(dus, vars, k) || skipOne(dus[k], vars))))
 
+//@ spec asSel(s Selection) Selection = s
+//@ axiom dirsOfField(f *Field): asSel(box(f)).Directives() == f.Dirs
 //@ func (*Root).skipSel
 //@   props C09
 //@   check panic {C03}
@@ -437,7 +438,7 @@ package ggql
 
 //@ -- END generated scalar contracts
 
-//@ comparable Type, Selection
+//@ comparable Type, Selection, reflect.Type
 
 //@ -- ------------------------------------------------------------------ data-structure invariants of parsed documents and loaded schemas
 //@ -- (trusted: established by the parsers; every use is listed under assumptions in the evidence)
@@ -448,6 +449,8 @@ package ggql
 //@ fieldinv DirectiveUse.Directive: v != nil
 //@ fieldinv FragRef.Fragment: v != nil
 //@ fieldinv VarDef.Type: v != nil
+//@ fieldinv Root.uuSchemaType: v != nil
+//@ typeinv Type: v == nil || ptrval(v) != 0
 
 //@ -- ------------------------------------------------------------------ C06 error paths
 //@ -- Error lists are "owned": every *Error in a list was created for it, later entries were created later.
@@ -536,7 +539,6 @@ package ggql
 
 //@ -- ------------------------------------------------------------------ resolve walk (C01, C06, C08, C09, C10)
 //@ spec fkey(f *Field) string = ite(len(f.Alias) > 0, f.Alias, f.Name)
-//@ spec isnilv(v interface{}) bool = v == nil || (ptrlike(v) && ptrval(v) == 0)
 //@ spec skippedSel(sel Selection, vars map[string]interface{}) bool = skippedUpTo(sel.Directives(), vars, len(sel.Directives()))
 //@ spec fdOf(t Type, name string) *FieldDef = ite(is(t, *Object), as(t, *Object).fields.dict[name], ite(is(t, *uuSchema), as(t, *uuSchema).fields.dict[name], ite(is(t, *Schema), as(t, *Schema).fields.dict[name], ite(is(t, *Interface), as(t, *Interface).fields.dict[name], nil))))
 
@@ -559,7 +561,7 @@ package ggql
 //@   requires root != nil && sel != nil && result != nil && t != nil
 //@   requires !skippedSel(box(sel), vars)
 //@   ensures[not-applicable]{C08} sel.Condition != nil && sel.Condition != t ==> len(ea) == 0 && #res == old(#res) && (forall k string :: (has(result, k) <==> old(has(result, k))) && result[k] == old(result[k]))
-//@   assigns fresh, result, H_Field.ConType, H_Field.Args, #res
+//@   assigns fresh, result, H_Field.ConType, H_Field.Args, H_Object.meta, held, #res
 
 //@ func (*Root).resolveFragRef
 //@   requires ptrval(t) != 0
@@ -570,7 +572,7 @@ package ggql
 //@   requires root != nil && sel != nil && result != nil && t != nil
 //@   requires !skippedSel(box(sel), vars)
 //@   ensures[not-applicable]{C08} sel.Fragment.Condition != nil && sel.Fragment.Condition != t ==> len(ea) == 0 && #res == old(#res) && (forall k string :: (has(result, k) <==> old(has(result, k))) && result[k] == old(result[k]))
-//@   assigns fresh, result, H_Field.ConType, H_Field.Args, #res
+//@   assigns fresh, result, H_Field.ConType, H_Field.Args, H_Object.meta, held, #res
 
 //@ func (*Root).resolveSels
 //@   requires ptrval(t) != 0
@@ -580,7 +582,7 @@ package ggql
 //@   check frame {C11}
 //@   requires root != nil && result != nil
 //@   requires t != nil
-//@   assigns fresh, result, H_Field.ConType, H_Field.Args, #res
+//@   assigns fresh, result, H_Field.ConType, H_Field.Args, H_Object.meta, held, #res
 //@   loop 0: invariant[bounds] 0 <= rangeindex+1 && rangeindex+1 <= len(sels)
 //@           invariant[errs] errsFresh(ea)
 //@           decreases len(sels) - rangeindex
@@ -596,11 +598,17 @@ package ggql
 //@   pure
 //@ interface ListResolver.Nth
 //@   pure
+//@ interface AnyResolver.Len
+//@   pure
+//@ interface AnyResolver.Nth
+//@   ghost #res += 1
+//@   assigns fresh
 
 //@ spec isMetaName(n string) bool = n == "__typename" || n == "__type" || n == "__schema"
 
 //@ func (*Root).GetType
 //@   abstract schema table lookup (root.init is idempotent after setup)
+//@   ensures res == nil || ptrval(res) != 0
 //@   assigns nothing
 
 //@ func (*Field).sortArgs
@@ -631,12 +639,61 @@ package ggql
 //@   ensures #res == old(#res)
 //@   assigns fresh
 
+//@ interface OutCoercer.CoerceOut
+//@   ensures[err-null] err != nil ==> res == nil
+//@   assigns fresh
+
+//@ func (*Object).metaCheck
+//@   abstract reflection binding lookup (reflect.Type identity is trusted)
+//@   requires t != nil
+//@   results meta, err
+//@   ensures aserr(err) == nil
+//@   assigns fresh, t.meta, held
+
 //@ func (*Root).resolve
-//@   abstract (not yet checked against the body)
+//@   props C01
+//@   check panic {C03}
+//@   check frame {C11}
 //@   requires root != nil && field != nil
-//@   ensures errsFresh(ea)
-//@   ensures[null-depth] (depth <= 0 || isnilv(obj)) ==> result == obj && len(ea) == 0 && #res == old(#res)
-//@   assigns fresh, H_Field.ConType, H_Field.Args, #res
+//@   requires t != nil ==> ptrval(t) != 0
+//@   ensures[errs-fresh]{C06} errsFresh(ea)
+//@   ensures[null-depth]{C01} (depth <= 0 || isnilv(obj)) ==> result == obj && len(ea) == 0 && #res == old(#res)
+//@   ensures[leaf-error-null]{C05} depth > 0 && !isnilv(obj) && !is(t, *List) && !is(t, *Object) && !is(t, *Schema) && !is(t, *Interface) && !is(t, *uuSchema) && !is(t, *NonNull) && !is(t, *Union) && len(ea) > 0 ==> result == nil
+//@   assigns fresh, H_Field.ConType, H_Field.Args, H_Object.meta, held, #res
+//@   loop 0: invariant[bounds] 0 <= rangeindex+1 && rangeindex+1 <= len(tt.Members)
+//@           decreases len(tt.Members) - rangeindex
+
+//@ spec idxPaths(ea []error, n int, m int) bool = forall k int {ea[k]} split k < m :: 0 <= k && k < len(ea) && aserr(ea[k]) != nil ==> len(aserr(ea[k]).Path) >= 1 && is(aserr(ea[k]).Path[0], int) && 0 <= as(aserr(ea[k]).Path[0], int) && as(aserr(ea[k]).Path[0], int) < n
+
+//@ func (*Root).resolveList
+//@   props C01
+//@   check panic {C03}
+//@   check frame {C11}
+//@   requires root != nil && field != nil && t != nil
+//@   ensures[errs-fresh]{C06} errsFresh(ea)
+//@   ensures[iface-list-len]{C01} is(obj, []interface{}) ==> is(result, []interface{}) && len(as(result, []interface{})) == len(as(obj, []interface{}))
+//@   ensures[listresolver-len]{C01} is(obj, ListResolver) && as(obj, ListResolver).Len() >= 0 ==> is(result, []interface{}) && len(as(result, []interface{})) == as(obj, ListResolver).Len()
+//@   assigns fresh, H_Field.ConType, H_Field.Args, H_Object.meta, held, #res
+//@   loop 0: invariant[bounds] 0 <= i && (i <= cnt || i == 0)
+//@           invariant[len] len(rlist) == i
+//@           invariant[errs] errsFresh(ea)
+//@           invariant[idx]{C06} idxPaths(ea, i, len(hdr(ea)))
+//@           decreases cnt - i
+//@   loop 1: invariant[bounds] 0 <= rangeindex+1 && rangeindex+1 <= len(list)
+//@           invariant[len] len(rlist) == rangeindex+1
+//@           invariant[errs] errsFresh(ea)
+//@           invariant[idx]{C06} idxPaths(ea, rangeindex+1, len(hdr(ea)))
+//@           decreases len(list) - rangeindex
+//@   loop 9: invariant[bounds] 0 <= i && (i <= cnt || i == 0)
+//@           invariant[len] len(rlist) == i
+//@           invariant[errs] errsFresh(ea)
+//@           invariant[idx]{C06} idxPaths(ea, i, len(hdr(ea)))
+//@           decreases cnt - i
+//@   loop 10: invariant[bounds] 0 <= i && (i <= cnt || i == 0)
+//@           invariant[len] len(rlist) == i
+//@           invariant[errs] errsFresh(ea)
+//@           invariant[idx]{C06} idxPaths(ea, i, len(hdr(ea)))
+//@           decreases cnt - i
 
 //@ func (*Root).resolveField
 //@   requires ptrval(t) != 0
@@ -649,7 +706,7 @@ package ggql
 //@   ensures[key-frame]{C01} forall k string :: k != fkey(field) ==> (has(result, k) <==> old(has(result, k))) && result[k] == old(result[k])
 //@   ensures[typename]{C01} old(field.ConType) != nil && field.Name == "__typename" ==> has(result, fkey(field)) && result[fkey(field)] == box(t.Name()) && len(ea) == 0 && #res == old(#res)
 //@   ensures[undefined-field]{C10} old(field.ConType) != nil && !isMetaName(field.Name) && old(fdOf(t, field.Name)) == nil ==> len(ea) > 0 && #res == old(#res) && (has(result, fkey(field)) <==> old(has(result, fkey(field)))) && result[fkey(field)] == old(result[fkey(field)])
-//@   assigns fresh, result, H_Field.ConType, H_Field.Args, #res
+//@   assigns fresh, result, H_Field.ConType, H_Field.Args, H_Object.meta, held, #res
 
 //@ func (*Root).resolveFieldSels
 //@   requires ptrval(t) != 0
@@ -660,4 +717,26 @@ package ggql
 //@   requires t != nil
 //@   ensures[fresh-map]{C01} is(result, map[string]interface{}) && fresh(as(result, map[string]interface{}))
 //@   ensures[errs-fresh]{C06} errsFresh(ea)
-//@   assigns fresh, H_Field.ConType, H_Field.Args, #res
+//@   assigns fresh, H_Field.ConType, H_Field.Args, H_Object.meta, held, #res
+
+//@ -- ------------------------------------------------------------------ ResolveExecutable (C01 operation choice, C04 variables, C07 shape)
+//@ fieldinv Executable.Ops: v != nil
+
+//@ func (*Root).subscribe
+//@   abstract (registry contracts: see C19)
+//@   requires root != nil && sub != nil
+//@   ensures #res == old(#res)
+//@   assigns fresh, root.subscriptions, H_Field.ConType, held
+
+//@ func (*Root).ResolveExecutable
+//@   props C01
+//@   check panic {C03}
+//@   requires root != nil && exe != nil
+//@   requires root.schema != nil
+//@   ensures[unknown-name]{C01} opName != "" && old(exe.Ops[opName]) == nil ==> err != nil && result == nil && #res == old(#res)
+//@   ensures[ambiguous]{C01} opName == "" && old(exe.Ops[opName]) == nil && old(len(exe.Ops)) != 1 ==> err != nil && result == nil && #res == old(#res)
+//@   use dirsOfField(addrof(field))
+//@   use skippedUnfold(addrof(field).Dirs, opVars, 0)
+//@   loop 0: invariant[bounds] 0 <= rangeindex+1 && rangeindex+1 <= len(op.Variables)
+//@           invariant[no-res] #res == old(#res)
+//@           decreases len(op.Variables) - rangeindex
